@@ -314,8 +314,45 @@ pub fn run(tier: Tier) -> i32 {
         rep.merge(acc);
     });
     rep.part(json!({"part":"(c) corpus truncations and byte replacements","corpus_packets":corp.len(),"in_states":states.len()}));
+    directed_large_storage(&rep, &ck);
     for (k, &si) in reps.iter().enumerate().take(3) {
         rep.sample(k as u64, || json!({"receiver_state": format!("{:?}", states[si]), "inputs": "all byte strings of length 0..=3"}));
     }
     rep.finish(true)
+}
+
+/// A state BFS cannot reach cheaply: a 70000-byte storage filled by a first fragment and 15
+/// intermediates of 4094 bytes, so that the 16-bit reassembly bookkeeping is at its limit when the
+/// next continuation packets arrive.
+fn directed_large_storage(rep: &Report, ck: &Ck) {
+    use crate::refm::Desc;
+    let mut acc = Acc::default();
+    let mut d = RxS::new(1, 70000, &[70000]).build(DefaultCrc {}, ck.mgr.clone());
+    let first = Desc::first(L3A, 0x0800, 0, 0xFFFF, &vec![0x41u8; 4085]).print();
+    let inter = Desc::inter(0, &vec![0x42u8; 4094]).print();
+    let mut hist = vec![];
+    hist.push(do_decap(&mut d, &first).class());
+    for _ in 0..15 {
+        hist.push(do_decap(&mut d, &inter).class());
+    }
+    let s = RxS::of(&d);
+    let filled = s.mem.frags[0].as_ref().map(|c| c.0.pdu_len).unwrap_or(0);
+    let mut inputs: Vec<Vec<u8>> = vec![];
+    for n in [1usize, 2, 39, 40, 41, 100, 1000, 4094] {
+        inputs.push(Desc::inter(0, &vec![0x43u8; n]).print());
+        inputs.push(Desc::end(0, &vec![0x44u8; n], 0x0102_0304).print());
+    }
+    inputs.push(Desc::end(0, &[], 0).print());
+    for i in &inputs {
+        ck.one(&mut acc, &s, 1_000_000, i, "directed");
+        // and chained: the same packet twice
+        let mut d2 = s.build(DefaultCrc {}, ck.mgr.clone());
+        let _ = do_decap(&mut d2, i);
+        let s2 = RxS::of(&d2);
+        for j in &inputs {
+            ck.one(&mut acc, &s2, 1_000_001, j, "directed");
+        }
+    }
+    rep.merge(acc);
+    rep.part(json!({"part":"directed state: 70000-byte storage at the 16-bit bookkeeping limit","history":hist,"bytes_reassembled_before_the_menu":filled,"inputs":inputs.len()}));
 }
